@@ -21,7 +21,7 @@ ATTRS = {
     'clsA': 'class={{[f1(30), v2.d]}}', 'clkA': 'onClick={{[f1(31), v3.g]}}', 'styA': 'style={{[v4.t, f1(32)]}}',
     'modelCM': 'v-model={{[v1.m, f1(12), ["x"]]}}', 'modelS': 'v-model={{[v2.n, "arg"]}}', 'slots': 'v-slots={{{{s: f1(13)}}}}', 'arrow': 'cb={{() => f1(14)}}', 'obj': 'o={{{{p: f1(15)}}}}',
 }
-KIDS = {'call': '{{f1(20)}}', 'mem': '{{v1.k}}', 'call2': '{{f1(21)}}', 'text': 'txt', 'el': '<b x={{f1(22)}}>{{v2.y}}</b>', 'comp': '<C1 p={{f1(23)}}>{{v3.z}}</C1>', 'spread': '{{...f1(24)}}',
+KIDS = {'opt': '{{f1?.(29)}}', 'optm': '{{v1?.k}}', 'newx': '{{new C1(f1(30))}}', 'call': '{{f1(20)}}', 'mem': '{{v1.k}}', 'call2': '{{f1(21)}}', 'text': 'txt', 'el': '<b x={{f1(22)}}>{{v2.y}}</b>', 'comp': '<C1 p={{f1(23)}}>{{v3.z}}</C1>', 'spread': '{{...f1(24)}}',
         'id': '{{v1}}', 'arrow': '{{() => f1(25)}}', 'cond': '{{v1 ? f1(26) : f1(27)}}', 'frag': '<>{{f1(28)}}</>'}
 HOSTS = {'div': 'div', 'input': 'input', 'Foo': 'Foo', 'C1': 'C1', 'mem': 'v4.Cmp', 'memtag': 'v4.section', 'KeepAlive': 'KeepAlive'}
 
@@ -458,7 +458,7 @@ def jobs(tier):
     for h in HOSTS:
         for k in KIDS:
             out.append({'host': h, 'attrs': ['a'], 'kids': [k]})
-        for k1, k2 in itertools.permutations(['call', 'mem', 'el', 'comp', 'text', 'spread', 'id'] if tier == 'quick' else list(KIDS), 2):
+        for k1, k2 in itertools.permutations(['call', 'opt', 'mem', 'el', 'comp', 'text', 'spread', 'id'] if tier == 'quick' else list(KIDS), 2):
             out.append({'host': h, 'attrs': ['a', 'b'], 'kids': [k1, k2]})
     return [{'module': MOD, 'spec': s} for s in out]
 
